@@ -20,6 +20,9 @@ COMMON_NOTE = ("Trusted: the harness's dense long-double reference, the choice-s
                "Exploration only: the property is shown to hold on the generated cases (counts in the evidence file), nothing is proved.")
 
 INFO = {
+    "C13": dict(level="exploration", assumptions=COMMON_ASSUME + ["backward error judged with tolerance 4(n+3)eps + 8 eps*berr; columns whose denominators fall below the library's safe2 guard are not judged"], note=COMMON_NOTE,
+                technique="property-based testing (rapidcheck): long-double recomputation of the componentwise backward error of the returned X in the factored system; bit-exact differential against ?gstrs when refinement is off",
+                text="Generated expert-driver calls with and without refinement; BERR is compared with an independently computed backward error of the very X that was returned, and the no-refinement contract is checked bit for bit."),
     "C12": dict(level="exploration", assumptions=COMMON_ASSUME + ["true condition number from long-double Gauss-Jordan inversion of the matrix as factored; lower bound judged only when c*n*eps*kappa*rho < 1/2"], note=COMMON_NOTE,
                 technique="property-based testing (rapidcheck): differential against a long-double inverse for the one-sided estimator bound, exact threshold rule for info=n+1, recomputation of the growth factor from the returned factor arrays",
                 text="Generated matrices over a wide range of condition numbers (and exactly singular ones for the growth clause) go through the expert driver and direct ?gscon calls in both norms; the estimate is bounded from both sides against the true value."),
@@ -54,7 +57,7 @@ INFO = {
 
 NOT_APPLICABLE = {}
 
-PROPS = ["C01", "C02", "C03", "C04", "C05", "C10", "C11", "C12", "C14", "C17"]
+PROPS = ["C01", "C02", "C03", "C04", "C05", "C10", "C11", "C12", "C13", "C14", "C17"]
 
 
 def all_props():
